@@ -5,6 +5,7 @@ mod fam_e;
 mod fam_p;
 mod fam_s;
 mod fam_t;
+mod fam_x;
 mod gast;
 mod interp;
 mod progcheck;
